@@ -347,6 +347,17 @@ def gen_args(rng, qual, tier):
             for wc in (12, 15, 18, 21, 24, 0, 13, 11, 25, -12):
                 for i in idx[: (8 if wc in (12, 24) else 2)]:
                     out.append((rng.choice(objs), wc, i))
+    elif qual == "bip39.bip39_seed_from_mnemonic":
+        ms = ["abandon abandon abandon abandon abandon abandon abandon abandon abandon abandon abandon about", "", " lead  trail ", "ABC def",
+              "\u3042\u3044\u3053\u304f\u3057\u3093", "\u304c", "\u304b\u3099", "caf\u00e9", "cafe\u0301", "\ufb01 \u2460 \u00bd", "a\u00a0b", "a\u3000b", "\u212b", "\U0001f600 x",
+              "x\u0301\u0323", "x\u0323\u0301", "\u1e9b\u0323", "\ud55c\uae00", "tab\there", "nul\x00byte"]
+        ps = ["", "TREZOR", "p\u00e4ss", "pa\u0308ss", " ", "\u30e1\u30fc\u30c8\u30eb", "\u33a1", "mnemonic", "\U0001f511", "\ufb03"]
+        for m in ms:
+            out.append((m, rng.choice(ps)))
+        for p_ in ps:
+            out.append((rng.choice(ms), p_))
+        # (every parameter is passed: defaults are resolved by the translator at call sites, not by the interpreter's entry point)
+        out += [("a", None), (None, "a"), (b"a", "b"), ("a", b"b"), ("\ud800", ""), ("a", "\udfff")]
     elif qual == "bip39.mnemonic_from_entropy_bits":
         for b in (128, 160, 192, 224, 256):
             out += [(b,)] * max(3, n // 8)
@@ -489,6 +500,19 @@ class PySemProp(BaseProp):
             exp = "(Exc %s)" % r[1]
             shown = {"raises": r[1]}
         out = {"exp": exp, "shown": shown, "sha": rec.sha_table(), "err": r[0] == "exc"}
+        if case["f"] == "bip39.bip39_seed_from_mnemonic":
+            # the logged external primitives unicodedata.normalize / hashlib.pbkdf2_hmac as a table for the interpreter
+            ents = []
+            try:
+                for (form, st), res in rec.nfkd.items():
+                    if form == "NFKD":
+                        ents.append('("bip39.unicodedata.normalize_nfkd", [%s], Val %s)' % (cval(st), cval(res)))
+                for (name, pw, salt, rounds, dklen), res in rec.pbkdf2.items():
+                    if name == "sha512" and dklen is None:
+                        ents.append('("bip39.hashlib.pbkdf2_hmac_sha512", [%s;%s;%s], Val %s)' % (cval(pw), cval(salt), cval(rounds), cval(res)))
+            except TypeError:
+                return {"skip": "external call outside MiniPy", "err": False}
+            out["tbl"] = "[%s]" % ";".join(ents)
         if rng_log is not None:
             out["rng"] = "[%s]" % ";".join("(%s, %s)" % (cz(k), cz(v)) for k, v in rng_log if isinstance(k, int) and not isinstance(k, bool))
         if ent_log is not None:
@@ -500,6 +524,8 @@ class PySemProp(BaseProp):
         if obs.get("skip"):
             # evaluated as a trivially passing case: the function was called outside the fragment's domain
             return '(Sem [] "" [] (Val VNone))' if False else '(Sem [] "bech32.bech32_hrp_expand" [VStr []] (Val (VList [VInt 0])))'
+        if "tbl" in obs:
+            return '(SemT %s %s "%s" [%s] %s)' % (obs["sha"], obs["tbl"], case["f"], ";".join(cval(unj(a)) for a in case["args"]), obs["exp"])
         if "rng" in obs:
             return '(SemR %s %s "%s" [%s] %s)' % (obs["sha"], obs["rng"], case["f"], ";".join(cval(unj(a)) for a in case["args"]), obs["exp"])
         if "ent" in obs:
